@@ -283,9 +283,62 @@ func (g *G) mutate() (before, after map[string][]byte) {
 	return before, copyMap(g.ref)
 }
 
+// directed (C04): compaction run after a recovery stays safe. An older segment holds put(k); a newer
+// one holds put(k) and delete(k) and is eligible for compaction; crash, recovery (which rebuilds the
+// per-segment counters that decide what a compaction may drop), Compact, crash, recovery: k stays
+// deleted. Also the clean-restart variant: recovery, Close, Open, writes, crash.
+func genC04Directed(r *rng, tier string, add func(g *G)) {
+	n := scale(tier, 6, 60)
+	for i := 0; i < n; i++ {
+		g := newG(r.fork(), fmt.Sprintf("C04/directed/%d", i))
+		g.dumpEvery = 0
+		// the older segment has little garbage (not eligible at a threshold of 20%), the newer one a lot
+		g.params(1500, 512, 0.2, false)
+		g.open()
+		k, a, b, c := []byte("k"), []byte("a"), []byte("b"), []byte("c")
+		g.keys = [][]byte{k, a, b, c}
+		g.put(k, g.r.bytes(45+g.r.intn(10)))
+		g.put(a, g.r.bytes(840+g.r.intn(20))) // fills the first segment
+		g.put(b, g.r.bytes(55+g.r.intn(10)))  // does not fit: second segment
+		g.put(k, g.r.bytes(35+g.r.intn(10)))
+		g.del(k)
+		for j := 0; j < 3; j++ {
+			g.put(c, g.r.bytes(195+g.r.intn(10)))
+		}
+		g.dump()
+		g.do("kill")
+		g.isOpen = false
+		g.open()
+		g.c.Steps[len(g.c.Steps)-1].Expect = []string{"open ok recovered=1"}
+		g.checkAll()
+		g.dump()
+		if i%2 == 1 {
+			// the recovered state goes through a clean restart first
+			g.close()
+			g.open()
+			g.put(c, g.r.bytes(20+g.r.intn(30)))
+			g.c.tag("recovery_then_clean_restart")
+		}
+		g.compact()
+		g.checkAll()
+		g.dump()
+		g.put(b, g.r.bytes(20+g.r.intn(30)))
+		g.do("kill")
+		g.isOpen = false
+		g.open()
+		g.checkAll()
+		g.dump()
+		g.c.tag("compaction_after_recovery_then_crash")
+		add(g)
+	}
+}
+
 // ---------------------------------------------------------------- C03 / C04: process crashes
 func genCrash(prop string, epochsMax int) genFunc {
 	return func(r *rng, tier string, add func(g *G)) {
+		if prop == "C04" {
+			genC04Directed(r, tier, add)
+		}
 		n := scale(tier, 60, 1500)
 		for i := 0; i < n; i++ {
 			g := newG(r.fork(), fmt.Sprintf("%s/%d", prop, i))
@@ -888,7 +941,35 @@ func genC12(r *rng, tier string, add func(g *G)) {
 }
 
 // ---------------------------------------------------------------- C15: compaction reclaims, nothing leaks, stays usable
+// directed: the history of DBProofsCompactFix.FixEx (one Compact is not always a fixpoint: the open
+// segment, 4 bytes too small to be considered, grows by the promoted records and becomes eligible;
+// the second Compact reaches the fixpoint), on the implementation and on the model.
+func genC15Fixpoint(r *rng, tier string, add func(g *G)) {
+	g := newG(r.fork(), "C15/fixpoint")
+	g.dumpEvery = 0
+	g.params(590, 540, 0.01, false)
+	g.open()
+	a, b, j := []byte("a"), []byte("b"), []byte("j")
+	g.keys = [][]byte{a, b, j}
+	g.put(a, g.r.bytes(20))
+	g.put(j, []byte{1})
+	g.put(b, g.r.bytes(20))
+	g.put(j, []byte{2})
+	g.put(j, []byte{3})
+	g.dump()
+	g.do("compact", "compact ok 1 1 12")
+	g.dump()
+	g.do("compact", "compact ok 1 1 12")
+	g.dump()
+	g.do("compact", "compact ok 0 0 0")
+	g.checkAll()
+	g.checkDirectory()
+	g.c.tag("compaction_fixpoint_after_two_runs")
+	add(g)
+}
+
 func genC15(r *rng, tier string, add func(g *G)) {
+	genC15Fixpoint(r, tier, add)
 	genC15Steady(r, tier, add)
 	n := scale(tier, 50, 800)
 	for i := 0; i < n; i++ {
